@@ -53,7 +53,18 @@ impl<'a> VisitorCopy for Enumerate<'a> {
             }
         }
         let c = cfg();
-        let n = sweep_points::<f64, D>(d, &l, &jobs, 2, &c, &exec::<D>, self.stats);
+        let mut n = sweep_points::<f64, D>(d, &l, &jobs, 2, &c, &exec::<D>, self.stats);
+        // every presence pattern x the tensor grid of part values (zeros included: a vanishing first
+        // part with non-vanishing higher parts) in every branch of the three functions
+        {
+            let mut pj: Vec<(Op, Vec<f64>)> = Vec::new();
+            for op in [Op::BesselJ0, Op::BesselJ1, Op::BesselJ2] {
+                for x in [2e-6, 0.5, 1.25, -3.5, 7.25, -59.0] {
+                    pj.push((op, vec![x]));
+                }
+            }
+            n += sweep_many::<f64, D>(d, &l, &pj, 400, &c, &exec::<D>, self.stats).cases;
+        }
         // parity
         let l2 = &l;
         par_for(jobs.len(), self.stats, |i, st| {
